@@ -151,6 +151,28 @@ def reader_map(prog, func):
     return out
 
 
+def referenced_tables(prog, func, lambdas=()):
+    """{literal: enumerator} of the namespace-scope lookup tables (rows `{"literal", ..., Enum::X}`) that func or its lambdas name: a
+    reader that walks such a table pairs each literal with the enumerator in the same row"""
+    names = set()
+    for g in [func] + list(lambdas):
+        for e in g.events():
+            for r in (e.get("refs") or []):
+                if r.startswith("v:"):
+                    names.add(r[2:].split("@")[0])
+            for a in (e.get("args") or []):
+                if a.get("root"):
+                    names.add(a["root"].split("@")[0])
+    out = {}
+    for v in prog.vars:
+        if v.get("func") or not v.get("init") or v.get("file") != func.file:
+            continue
+        if v["name"].rsplit("::", 1)[-1] in names:
+            for lit, en in static_table(v["init"]).items():
+                out.setdefault(lit, en)
+    return out
+
+
 def enum_predicate(func):
     """For a bool function over an enumeration: the set of enumerators it answers true for, or None when the shape is not one of
     `switch { case A: case B: return true; default: return false; }` / `return x == A || x == B ...`."""
